@@ -35,6 +35,12 @@ def cases(tier, seed):
     for lim in (1.5, 3.0, 6.0):
         for cplx in (False, True):
             yield f"C08|papr|limit={lim},{'complex' if cplx else 'real'}", {"kind": "papr", "limit": lim, "cplx": cplx, "tier": tier}
+    # the same spaces with double-precision signals (one target each)
+    for cplx in (False, True):
+        for kind in ("total", "average"):
+            yield f"C08|{kind}|target=1.0,{'complex' if cplx else 'real'},double", {"kind": "power", "which": kind, "target": 1.0, "cplx": cplx, "tier": tier, "double": True}
+        yield f"C08|papr|limit=3.0,{'complex' if cplx else 'real'},double", {"kind": "papr", "limit": 3.0, "cplx": cplx, "tier": tier, "double": True}
+    yield "C08|peak|A=1.0,double", {"kind": "peak", "A": 1.0, "tier": tier, "double": True}
     yield "C08|composite|chains", {"kind": "chains", "tier": tier}
     yield "C08|factory|ofdm", {"kind": "ofdm", "tier": tier}
     yield "C08|factory|mimo", {"kind": "mimo", "tier": tier}
@@ -44,7 +50,12 @@ def component_of(p):
     return {"power": p.get("which", ""), "antenna": "per-antenna", "peak": "peak", "papr": "papr", "chains": "composite", "ofdm": "factory-ofdm", "mimo": "factory-mimo"}[p["kind"]]
 
 
+_DOUBLE = False
+
+
 def execute(p, res):
+    global _DOUBLE
+    _DOUBLE = bool(p.get("double"))
     {"power": power_case, "antenna": antenna_case, "peak": peak_case, "papr": papr_case, "chains": chains_case, "ofdm": ofdm_case, "mimo": mimo_case}[p["kind"]](p, res)
 
 
@@ -121,7 +132,7 @@ def power_case(p, res):
     con = KC.TotalPowerConstraint(tg) if which == "total" else KC.AveragePowerConstraint(tg)
     Lmax = (3 if cplx else 4) if p["tier"] == "quick" else (3 if cplx else 5)
     vecs = all_vectors(cplx, Lmax)
-    cfgb = f"target={tg},{'complex' if cplx else 'real'}"
+    cfgb = f"target={tg},{'complex' if cplx else 'real'}" + (",double" if _DOUBLE else "")
     for L, vs in vecs.items():
         for sc in SCALES:
             cfg = f"{cfgb},shape=BxL"
@@ -282,7 +293,7 @@ def papr_case(p, res):
     from kaira.constraints.utils import measure_signal_properties
     lim, cplx = p["limit"], p["cplx"]
     con = KC.PAPRConstraint(max_papr=lim)
-    cfgb = f"limit={lim},{'complex' if cplx else 'real'}"
+    cfgb = f"limit={lim},{'complex' if cplx else 'real'}" + (",double" if _DOUBLE else "")
     items = []
     for nm, vs in long_signals(cplx).items():
         for sc in SCALES:
